@@ -46,6 +46,8 @@ def cases(tier, seed):
     out = pool.pool_cases(tier, seed, ['c01', 'c02', 'c07', 'c08', 'c13', 'c09', 'c03', 'c05'], 120 if tier == 'quick' else 800)
     if tier == 'thorough':
         out.insert(0, pool.ambient_case(PID))
+    if tier == 'thorough':
+        out.insert(0, pool.ambient_docs_case(PID))
     reps = 1 if tier == 'quick' else 6
     for rep in range(reps):
         for D in (1, 3):
@@ -62,10 +64,10 @@ def cases(tier, seed):
 def run_case(ctx, case):
     if case['kind'] == 'pool':
         return pool.run_host(case)
-    if case['kind'] == 'ambient':
+    if case['kind'] in ('ambient', 'ambient-docs'):
         probe.S.suppress = True
         try:
-            return pool.run_ambient(ctx, PID)
+            return pool.run_ambient(ctx, PID) if case['kind'] == 'ambient' else pool.run_ambient_docs(ctx, PID)
         finally:
             probe.S.suppress = False
     rng = gen.rng_of(case)
